@@ -17,19 +17,28 @@
 /* VERIF-UNIT
 {
  "name": "read_ext_attr3",
- "props": ["C14"],
+ "props": [
+  "C14"
+ ],
  "level": "P",
- "tier": "wip",
+ "tier": "quick",
  "harness": "h_read_ext_attr",
- "sources": ["lib/ext2fs/io_manager.c"],
+ "sources": [
+  "lib/ext2fs/io_manager.c"
+ ],
  "unwind": 1,
  "unwind_reason": "loop-free",
- "functions": ["lib/ext2fs/ext_attr.c:ext2fs_read_ext_attr3", "lib/ext2fs/ext_attr.c:ext2fs_read_ext_attr2", "lib/ext2fs/ext_attr.c:ext2fs_read_ext_attr", "lib/ext2fs/ext_attr.c:check_ext_attr_header"],
+ "functions": [
+  "lib/ext2fs/ext_attr.c:ext2fs_read_ext_attr3",
+  "lib/ext2fs/ext_attr.c:ext2fs_read_ext_attr2",
+  "lib/ext2fs/ext_attr.c:ext2fs_read_ext_attr",
+  "lib/ext2fs/ext_attr.c:check_ext_attr_header"
+ ],
  "assumes": [
-   "little-endian host",
-   "ext2fs_ext_attr_block_csum_verify (csum.c) is a monitor stub answering IN.c.cv_ok; its definition is proved in proofs/csum",
-   "io manager methods are monitor stubs (read may fail with an arbitrary non-zero code); device content arbitrary (1024-byte buffer of fresh arbitrary memory)",
-   "fs->flags arbitrary"
+  "little-endian host",
+  "ext2fs_ext_attr_block_csum_verify (csum.c) is a monitor stub answering IN.c.cv_ok; its definition is proved in proofs/csum",
+  "io manager methods are monitor stubs (read may fail with an arbitrary non-zero code); device content arbitrary (1024-byte buffer of fresh arbitrary memory)",
+  "fs->flags arbitrary"
  ],
  "native": false
 }
@@ -37,19 +46,27 @@
 /* VERIF-UNIT
 {
  "name": "write_ext_attr3",
- "props": ["C14"],
+ "props": [
+  "C14"
+ ],
  "level": "P",
- "tier": "wip",
+ "tier": "quick",
  "harness": "h_write_ext_attr",
- "sources": ["lib/ext2fs/io_manager.c"],
+ "sources": [
+  "lib/ext2fs/io_manager.c"
+ ],
  "unwind": 1,
  "unwind_reason": "loop-free",
- "functions": ["lib/ext2fs/ext_attr.c:ext2fs_write_ext_attr3", "lib/ext2fs/ext_attr.c:ext2fs_write_ext_attr2", "lib/ext2fs/ext_attr.c:ext2fs_write_ext_attr"],
+ "functions": [
+  "lib/ext2fs/ext_attr.c:ext2fs_write_ext_attr3",
+  "lib/ext2fs/ext_attr.c:ext2fs_write_ext_attr2",
+  "lib/ext2fs/ext_attr.c:ext2fs_write_ext_attr"
+ ],
  "assumes": [
-   "little-endian host",
-   "ext2fs_ext_attr_block_csum_set (csum.c) is a monitor stub that may fail with an arbitrary non-zero code; its definition is proved in proofs/csum",
-   "io manager methods are monitor stubs (write may fail); 1024-byte buffer with arbitrary content",
-   "fs->flags arbitrary"
+  "little-endian host",
+  "ext2fs_ext_attr_block_csum_set (csum.c) is a monitor stub that may fail with an arbitrary non-zero code; its definition is proved in proofs/csum",
+  "io manager methods are monitor stubs (write may fail); 1024-byte buffer with arbitrary content",
+  "fs->flags arbitrary"
  ],
  "native": false
 }
